@@ -61,7 +61,7 @@ def run_case(case):
                         res.fail("C18/name-rejected", "a %d byte name that fits was rejected" % len(nb))
             elif k == "show_pa":
                 try:
-                    b.show_pa_level = bool(op[1])
+                    b.show_pa_level = op[1]  # documented as a bool; any truthy / falsy value (1, a masked flag word) switches it
                     show_pa = bool(op[1])
                 except ValueError:
                     if not (op[1] and name is not None and len(name) + 2 + 3 > 18):
@@ -220,9 +220,9 @@ def _strategy():
                 if nb is None or nb + 2 + (3 if show else 0) <= 18 + 2:
                     name_len = nb
             elif k == "show_pa":
-                v = draw(st.booleans())
+                v = draw(st.sampled_from([False, True, False, True, 0, 1, 2, 4]))
                 ops.append(["show_pa", v])
-                show = v
+                show = bool(v)
             elif k == "pa_level":
                 ops.append(["pa_level", draw(st.sampled_from([-18, -12, -6, 0]))])
             elif k == "hop":
@@ -258,7 +258,7 @@ def _enum(names, offsets):
     def gen():
         import itertools
         for nm, show, pa, tune, form, off, reps in itertools.product(
-                names, (False, True), (-18, 0), ("hop", "channel", "ctx"), ("single", "list", "tuple", "list_ba"), offsets, (1, 3)):
+                names, (False, True, 4), (-18, 0), ("hop", "channel", "ctx"), ("single", "list", "tuple", "list_ba"), offsets, (1, 3)):
             nlen = None if nm is None else len(nm.encode())
             if nlen is not None and nlen + 2 + (3 if show else 0) > 18:
                 continue
